@@ -5,7 +5,7 @@
 #   "fixed" - the code after fixes/C10-heightcache.patch (full theorem C10.cache_transparent applies)
 #   "auto"  - decided by the harness' probe of the real code; a code base that answers the probe like
 #             neither model makes the check fail.
-MODE = "auto"
+MODE = "fixed"
 
 META = dict(
     engine="E-KV",
